@@ -160,7 +160,7 @@ def repo_state_hash():
     return h.hexdigest()[:16]
 
 
-def _write_workspace(d, shards, features, extra_deps=""):
+def _write_workspace(d, shards, features, extra_deps="", extra_prelude=""):
     os.makedirs(d, exist_ok=True)
     members = ["shard%d" % i for i in range(len(shards))] + ["runner"]
     open(os.path.join(d, "Cargo.toml"), "w").write(
@@ -176,7 +176,7 @@ def _write_workspace(d, shards, features, extra_deps=""):
         os.makedirs(os.path.join(sd, "src"), exist_ok=True)
         open(os.path.join(sd, "Cargo.toml"), "w").write('[package]\nname = "shard%d"\nversion = "0.0.0"\nedition = "2021"\n[dependencies]\n%s' % (i, dep))
         lines = ["#![allow(dead_code, unused, non_camel_case_types, non_snake_case, clippy::all)]",
-                 'pub mod prelude { include!("%s"); }' % os.path.join(TEMPLATES, "prelude.rs"),
+                 'pub mod prelude { include!("%s"); %s }' % (os.path.join(TEMPLATES, "prelude.rs"), extra_prelude.replace("\n", " ")),
                  "use prelude::*;"]
         line_of = {}
         for u in units:
@@ -225,9 +225,9 @@ def _cargo_build(d):
 class Corpus:
     """build + run a list of Units; observations cached under build/corpus/<tag>-<hash>"""
 
-    def __init__(self, tag, units, features=("serde-compat",), extra_deps=""):
-        self.tag, self.units, self.features, self.extra_deps = tag, units, features, extra_deps
-        h = hashlib.sha1((repo_state_hash() + json.dumps([(u.name, u.src, u.samples, u.serde, u.deser) for u in units]) + ",".join(features) + extra_deps).encode()).hexdigest()[:16]
+    def __init__(self, tag, units, features=("serde-compat",), extra_deps="", extra_prelude=""):
+        self.tag, self.units, self.features, self.extra_deps, self.extra_prelude = tag, units, features, extra_deps, extra_prelude
+        h = hashlib.sha1((repo_state_hash() + json.dumps([(u.name, u.src, u.samples, u.serde, u.deser) for u in units]) + ",".join(features) + extra_deps + extra_prelude).encode()).hexdigest()[:16]
         self.dir = os.path.join(vlib.BUILD, "corpus", tag)
         self.cache = os.path.join(vlib.BUILD, "corpus-cache", "%s-%s.json" % (tag, h))
         self.rejected = {}
@@ -246,7 +246,7 @@ class Corpus:
         shards_of = lambda us: [us[i::NSHARDS] for i in range(NSHARDS)]
         for attempt in range(6):
             shards = shards_of(units)
-            _write_workspace(self.dir, shards, self.features, self.extra_deps)
+            _write_workspace(self.dir, shards, self.features, self.extra_deps, self.extra_prelude)
             rc, errs, out = _cargo_build(self.dir)
             if rc == 0:
                 break
@@ -281,7 +281,7 @@ class Corpus:
 
     def _ensure_built(self):
         units = [u for u in self.units if u.name not in self.rejected]
-        _write_workspace(self.dir, [units[i::NSHARDS] for i in range(NSHARDS)], self.features, self.extra_deps)
+        _write_workspace(self.dir, [units[i::NSHARDS] for i in range(NSHARDS)], self.features, self.extra_deps, self.extra_prelude)
         rc, errs, out = _cargo_build(self.dir)
         if rc != 0:
             raise ToolError("corpus %s does not build any more:\n%s" % (self.tag, out[-3000:]))
